@@ -182,6 +182,9 @@ class _ShapeList(list):
             meta_pairs = []
             for key, val in shape.meta.items():
                 if key not in keylist:
+                    if isinstance(val, (list, tuple)):
+                        # e.g., labeloff=[1, 2]
+                        val = '[' + ', '.join(str(x) for x in val) + ']'
                     meta_pairs.append(f'{key}={val}')
             meta_str = ', '.join(meta_pairs)
 
